@@ -19,7 +19,7 @@ import common
 import gen_specs
 
 MANIFEST = dict(
-    text='Theorems (props/C06.v, 36) about Coq definitions over R that py2coq regenerates on every run from '
+    text='Theorems (props/C06.v, 33) about Coq definitions over R that py2coq regenerates on every run from '
          'notch_approximation_law.py, notch_approximation_law_seegerbeste.py and rambgood.py. Extended Neuber (full): the generated '
          'f(s;L) is eq. 2.5-45, strictly increasing in s>0, has exactly one positive root and it lies in [L/K_p, L] (IVT), no root at 0, '
          'equation odd, root strictly increasing in L, the analytic f\' is the derivative (Coquelicot is_derive) on both branches, '
@@ -238,6 +238,7 @@ class Stats(dict):
 
 def call(fn, x, tol, st, tag):
     """Returns (value or None, exception name or None); solver failures (RuntimeError) are counted, not failed."""
+    st.inc('attempt:' + tag)
     with warnings.catch_warnings(record=True) as w:
         warnings.simplefilter('always')
         try:
@@ -504,7 +505,9 @@ def certificates(rng, samples, records, per_kind):
                 fn = ('en_stress' if lawname == 'ExtendedNeuber' else 'sb_stress') + ('_secondary_implicit' if sec else '_implicit')
                 sg = 1.0 if s > 0 else -1.0
                 va, vb = A(fn, E, K, n, Kp, s, L), A(fn, E, K, n, Kp, sg * how[1], L)
-                add('(%s <= 0 /\\ 0 <= %s) \\/ (%s <= 0 /\\ 0 <= %s)' % (va, vb, vb, va), ('root bracketed within 2 tau', lawname, sec, E, K, n, Kp, tol, L, s, how[1]))
+                fs = en_f(E, K, n, Kp, abs(s), abs(L), sec) if lawname == 'ExtendedNeuber' else sb_F(E, K, n, Kp, abs(s), abs(L), sec)[0]
+                lo_, hi_ = (va, vb) if fs <= 0 else (vb, va)
+                add('%s <= 0 /\\ 0 <= %s' % (lo_, hi_), ('root bracketed within 2 tau', lawname, sec, E, K, n, Kp, tol, L, s, float(how[1])))
                 continue
             if lawname.startswith('ExtendedNeuber'):
                 fn = 'en_stress_secondary_implicit' if sec else 'en_stress_implicit'
@@ -618,14 +621,20 @@ def run(res, only=None):
                        'containers float / np.float64 / 0-d / 1-element ndarray and Series / ndarray / Series; non-trivial = distinct (law, branch, material, K_p, load) whose load has a '
                        'plastic strain share > 1e-6 (the law differs from sigma = L), counted over returned values that were checked')
     proofs_ok = common.standard_proof_stage(res, 'C06', extra_targets=['theories/Common/Cert.vo'], gen_fn=lambda: gen_specs.generate(GEN))
-    k, m, per_kind = (36, 5, 10) if quick else (400, 8, 60)
+    k, m, per_kind = (36, 5, 10) if quick else (400, 8, 45)
     samples = only if only is not None else gen_samples(res.rng, k, m)
     st, records = Stats(), []
     for smp in samples:
         relations_one(res, st, smp, records)
     nontriv = len({(r[0], r[1], r[2], round(r[4], 9)) for r in records if plastic_share(r[2][0], r[2][1], r[2][2], r[4]) > 1e-6})
     res.add_cases(len(records) + st.get('container_calls', 0) + st.get('derivative_points', 0), nontrivial=nontriv)
-    res.cov['implementation_relations'] = dict(st)
+    # "inputs on which the solver raises are counted, not failed" must not turn a solver that (almost) always raises into a pass:
+    # on the unchanged tree at most ~5 % of the calls of any method raise
+    for tag in sorted(k_[8:] for k_ in st if k_.startswith('attempt:')):
+        att, rs = st['attempt:' + tag], st.get('solver_raised:' + tag, 0)
+        if att >= 8 and tag != 'witness':
+            res.oblige('solver converges on >= 75 %% of the sampled inputs: %s (%d of %d raised)' % (tag, rs, att), rs <= 0.25 * att)
+    res.cov['implementation_relations'] = {k_: v for k_, v in st.items() if not k_.startswith(('attempt:', 'last_'))}
     res.cov['solver_raised'] = {k_: v for k_, v in st.items() if k_.startswith('solver_')}
     for r in records[:3]:
         res.sample({'law': r[0], 'secondary': r[1], 'E,K,n,K_p': r[2], 'tol': r[3], 'load': r[4], 'returned': r[5], 'passed': r[6], 'criterion': r[7]})
